@@ -2,6 +2,8 @@ import FH.Driver.Parse
 import FH.RuleX64
 import FH.RuleA64
 import FH.Pe
+import FH.AnaX64
+import FH.AnaA64
 namespace FH.Driver
 open FH
 
@@ -107,5 +109,32 @@ def handleRegDecode (fs : List (String × String)) : Option String := do
   let c ← parseHex (← lookup fs "c")
   let e ← parseHex (← lookup fs "e")
   pure ("dec=" ++ ",".intercalate ((decodeRegs c e).map toHex))
+
+def hexBytes : List Char → Option (List Nat)
+  | [] => some []
+  | a :: b :: rest => do
+    let x ← hexDigit a
+    let y ← hexDigit b
+    let tl ← hexBytes rest
+    pure ((x * 16 + y) :: tl)
+  | _ => none
+
+/-- `ana <id> arch=<a> pc=<hex> text=<hexbytes>`: instruction analysis
+(`rule_from_instruction_analysis`). -/
+def handleAna (fs : List (String × String)) : Option String := do
+  let arch ← lookup fs "arch"
+  let pc ← parseHex (← lookup fs "pc")
+  let text ← hexBytes (← lookup fs "text").toList
+  if arch == "x64" then
+    pure (match anaX64 text pc with
+      | none => "panic"
+      | some none => "none"
+      | some (some r) => "rule:" ++ showRuleX64 r)
+  else if arch == "a64" then
+    pure (match anaA64 text pc with
+      | none => "panic"
+      | some none => "none"
+      | some (some r) => "rule:" ++ showRuleA64 r)
+  else none
 
 end FH.Driver
